@@ -250,6 +250,15 @@ func ZZVerifC19TextConcurrent() {
 			nd.Assert(got[i] == want, "C19/text/concurrent-equivalent")
 		}
 	}
+	// the provider stays usable afterwards: every kind of request still
+	// returns (a lock left behind by the concurrent first requests would
+	// show as a deadlock) with the expected template
+	for _, v := range []string{"v", "w"} {
+		g, k := zzViewTable(p, v)
+		nd.Assert(k && g == w.expectView(v), "C19/text/after-concurrent-view")
+	}
+	g, k := zzLayoutTable(p)
+	nd.Assert(k && g == zzOverlay(w.helper, w.layout), "C19/text/after-concurrent-layout")
 	nd.Reach("C19/text/concurrent-end")
 }
 
